@@ -38,6 +38,10 @@ C03(r) ==
        \cup (IF ~MatchesStrict(s, sub) THEN {"C03.NotVerifying"} ELSE {})
        \cup (IF r.verify_after # "ok" /\ MatchesStrict(s, sub) THEN {"C03.FreshVerifyFails"} ELSE {})
 
+(* other logical names of the updated directory and of directories inside it (symlinked        *)
+(* directories): supplied by the harness from realpath                                        *)
+Aliases(r) == IF "aliases" \in DOMAIN r.ev THEN { r.ev.aliases[ai] : ai \in DOMAIN r.ev.aliases } ELSE {}
+
 C10(r) ==
     LET s0 == r.s0  s1 == r.s1  sub == r.ev.sub IN
     (IF r.before_save # <<>> THEN {"C10.WroteBeforeSave"} ELSE {})
@@ -51,7 +55,7 @@ C10(r) ==
             \cup (IF \E f \in FilePaths(s0) \cap FilePaths(s1) :
                         ~(TagsOf(s1, f) \subseteq TagsOf(s0, f))
                   THEN {"C10.TagChanged"} ELSE {})
-            \cup (IF OutsideSet(s0, sub, r.ev.opts.force) # OutsideSet(s1, sub, r.ev.opts.force) THEN {"C10.OutsideChanged"} ELSE {})
+            \cup (IF OutsideSetA(s0, sub, Aliases(r), r.ev.opts.force) # OutsideSetA(s1, sub, Aliases(r), r.ev.opts.force) THEN {"C10.OutsideChanged"} ELSE {})
           ELSE {})
 
 C12(r) ==
